@@ -114,3 +114,88 @@ pub proof fn lemma_restr_union(m1: Map<String, GraphColoredVertices>, m2: Map<St
         else { assert(ctx_has(m1, k)); let s = choose|s: String| #[trigger] m1.contains_key(s) && s@ == k; assert(m.contains_key(s)); }
     }
 }
+// occurrences of the wild-card p in the trees i.. of a batch
+pub open spec fn occ_from(v: Seq<HctlTreeNode>, i: int, p: Seq<char>) -> nat decreases v.len() - i {
+    if i < 0 || i >= v.len() { 0 } else { occ(view_tree(v[i]), p) + occ_from(v, i + 1, p) }
+}
+pub proof fn lemma_occ_from_wilds(v: Seq<HctlTreeNode>, i: int, p: Seq<char>)
+    requires 0 <= i, occ_from(v, i, p) > 0
+    ensures all_wilds(v).contains(p)
+    decreases v.len() - i
+{
+    if i < v.len() {
+        if occ(view_tree(v[i]), p) > 0 { lemma_occ_wilds(view_tree(v[i]), p); assert(wilds(view_tree(v[i])).contains(p)); }
+        else { lemma_occ_from_wilds(v, i + 1, p); }
+    }
+}
+// what the extended entry points are verified for: every wild-card PROPOSITION label is used at most once in the whole batch
+// (domains are not restricted).  The occurrence counter of a label is then 1 and is consumed by its only evaluation.
+pub open spec fn single_use(fs: Seq<&str>) -> bool {
+    forall|v: Seq<HctlTreeNode>, p: Seq<char>| v.len() == fs.len() && (forall|i: int| 0 <= i < v.len() ==> accepted(fs[i]@, true, view_tree(#[trigger] v[i])))
+        ==> #[trigger] occ_from(v, 0, p) <= 1
+}
+pub open spec fn texts_small_ext(fs: Seq<&str>, extra: nat) -> bool {
+    forall|v: Seq<HctlTreeNode>| v.len() == fs.len() && (forall|i: int| 0 <= i < v.len() ==> accepted(fs[i]@, true, view_tree(#[trigger] v[i])))
+        ==> #[trigger] roots_total(v) + extra < i32::MAX
+}
+pub open spec fn result_ok_ext(g: &SymbolicAsyncGraph, s: Seq<char>, c: Map<String, GraphColoredVertices>, r: ISet<Pt>) -> bool {
+    exists|t: STree| accepted_ext(s, t, c) && #[trigger] ok(g, r, sem(t, steady_set()))
+}
+pub proof fn lemma_restr_sound(m: Map<String, GraphColoredVertices>, c: Map<String, GraphColoredVertices>, labels: ISet<Seq<char>>)
+    requires ctx_restr(m, c, labels), ctx_sound(c)
+    ensures ctx_sound(m), m.dom().subset_of(c.dom())
+{
+    assert forall|s: String| #[trigger] m.contains_key(s) implies gv(&m[s]) == wc_set(s@) && env_indep(wc_set(s@)) && wc_set(s@).subset_of(base_unit()) by { assert(c.contains_key(s)); }
+}
+// the budget of the single-use class
+pub open spec fn budget_inv(c: EvalContext, v: Seq<HctlTreeNode>, i: int) -> bool {
+    forall|p: Seq<char>| #[trigger] occ_from(v, i, p) > 0 ==> has_wc(c, p, 1)
+}
+pub proof fn lemma_budget_single_pre(c: EvalContext, v: Seq<HctlTreeNode>, i: int)
+    requires 0 <= i < v.len(), budget_inv(c, v, i), forall|p: Seq<char>| #[trigger] occ_from(v, 0, p) <= 1
+    ensures budget_pre(c, view_tree(v[i]))
+{
+    reveal(budget_pre);
+    let t = view_tree(v[i]);
+    assert forall|p: Seq<char>| occ(t, p) > 0 implies has_wc(c, p, #[trigger] occ(t, p) as int) by {
+        lemma_occ_from_le(v, 0, i, p);
+        assert(occ_from(v, i, p) > 0);
+    }
+}
+pub proof fn lemma_occ_from_le(v: Seq<HctlTreeNode>, a: int, b: int, p: Seq<char>)
+    requires 0 <= a <= b
+    ensures occ_from(v, b, p) <= occ_from(v, a, p)
+    decreases b - a
+{
+    if a < b { lemma_occ_from_le(v, a + 1, b, p); }
+}
+pub proof fn lemma_budget_single_post(c0: EvalContext, c1: EvalContext, v: Seq<HctlTreeNode>, i: int)
+    requires 0 <= i < v.len(), budget_inv(c0, v, i), budget_post(c0, c1, view_tree(v[i])), forall|p: Seq<char>| #[trigger] occ_from(v, 0, p) <= 1
+    ensures budget_inv(c1, v, i + 1)
+{
+    reveal(budget_post);
+    let t = view_tree(v[i]);
+    assert forall|p: Seq<char>| #[trigger] occ_from(v, i + 1, p) > 0 implies has_wc(c1, p, 1) by {
+        lemma_occ_from_le(v, 0, i, p);
+        assert(occ(t, p) == 0);
+        assert(has_wc(c0, p, 1 + occ(t, p) as int));
+    }
+}
+pub open spec fn text_single_use(f: Seq<char>) -> bool { forall|t: STree, p: Seq<char>| #![trigger accepted(f, true, t), occ(t, p)] accepted(f, true, t) ==> occ(t, p) <= 1 }
+pub open spec fn text_small_ext(f: Seq<char>, extra: nat) -> bool { forall|t: STree| #[trigger] accepted(f, true, t) ==> s_size(t) + extra < i32::MAX }
+pub proof fn lemma_single_ext(f: &str, fs: Seq<&str>, extra: nat)
+    requires text_single_use(f@), text_small_ext(f@, extra), fs.len() == 1, fs[0] == f
+    ensures single_use(fs), texts_small_ext(fs, extra)
+{
+    assert forall|v: Seq<HctlTreeNode>, p: Seq<char>| v.len() == fs.len() && (forall|i: int| 0 <= i < v.len() ==> accepted(fs[i]@, true, view_tree(#[trigger] v[i])))
+        implies #[trigger] occ_from(v, 0, p) <= 1 by {
+        assert(accepted(fs[0]@, true, view_tree(v[0])));
+        assert(occ_from(v, 1, p) == 0);
+        assert(occ(view_tree(v[0]), p) <= 1);
+    }
+    assert forall|v: Seq<HctlTreeNode>| v.len() == fs.len() && (forall|i: int| 0 <= i < v.len() ==> accepted(fs[i]@, true, view_tree(#[trigger] v[i])))
+        implies #[trigger] roots_total(v) + extra < i32::MAX by {
+        lemma_roots_single(v);
+        assert(accepted(fs[0]@, true, view_tree(v[0])));
+    }
+}
